@@ -7,6 +7,7 @@ namespace RedunModel.ValueHash
 /-- Induction over values with the natural hypothesis for the child lists. -/
 theorem V.ind {motive : V → Prop}
     (none : motive .none) (bool : ∀ b, motive (.bool b)) (int : ∀ z, motive (.int z))
+    (float : ∀ b, motive (.float b))
     (str : ∀ s, motive (.str s)) (bytes : ∀ s, motive (.bytes s))
     (list : ∀ xs, (∀ x ∈ xs, motive x) → motive (.list xs))
     (tuple : ∀ xs, (∀ x ∈ xs, motive x) → motive (.tuple xs))
@@ -16,7 +17,7 @@ theorem V.ind {motive : V → Prop}
     (obj : ∀ c xs, (∀ x ∈ xs, motive x) → motive (.obj c xs))
     (v : V) : motive v :=
   V.rec (motive_1 := motive) (motive_2 := fun xs => ∀ x ∈ xs, motive x)
-    none bool int str bytes list tuple dict set fset obj
+    none bool int float str bytes list tuple dict set fset obj
     (by intro x hx; cases hx)
     (by
       intro h t ih iht x hx
@@ -46,6 +47,7 @@ theorem sim_eq_of_setFree (a b : V) (hf : SetFree a) (h : Sim a b) : a = b := by
   | none => cases h; rfl
   | bool _ => cases h; rfl
   | int _ => cases h; rfl
+  | float _ => cases h; rfl
   | str _ => cases h; rfl
   | bytes _ => cases h; rfl
   | list xs ih => cases h with | list hs => rw [sims_eq ih ((SetFrees_iff xs).1 hf) hs]
@@ -83,6 +85,7 @@ theorem sim_eq_of_rigid (a b : V) (hf : Rigid a) (h : Sim a b) : a = b := by
   | none => cases h; rfl
   | bool _ => cases h; rfl
   | int _ => cases h; rfl
+  | float _ => cases h; rfl
   | str _ => cases h; rfl
   | bytes _ => cases h; rfl
   | list xs ih => cases h with | list hs => rw [sims_eq' ih ((Rigids_iff xs).1 hf) hs]
@@ -115,6 +118,7 @@ theorem sim_refl (a : V) : Sim a a := by
   | none => exact .none
   | bool b => exact .bool b
   | int z => exact .int z
+  | float b => exact .float b
   | str s => exact .str s
   | bytes s => exact .bytes s
   | list xs ih => exact .list (sims_refl_of ih)
@@ -179,6 +183,7 @@ theorem sim_symm (a b : V) (h : Sim a b) : Sim b a := by
   | none => cases h; exact .none
   | bool _ => cases h; exact .bool _
   | int _ => cases h; exact .int _
+  | float _ => cases h; exact .float _
   | str _ => cases h; exact .str _
   | bytes _ => cases h; exact .bytes _
   | list xs ih => cases h with | list hs => exact .list (sims_symm_of ih hs)
@@ -214,6 +219,7 @@ theorem sim_trans (a b c : V) (h1 : Sim a b) (h2 : Sim b c) : Sim a c := by
   | none => cases h1; exact h2
   | bool _ => cases h1; exact h2
   | int _ => cases h1; exact h2
+  | float _ => cases h1; exact h2
   | str _ => cases h1; exact h2
   | bytes _ => cases h1; exact h2
   | list xs ih => cases h1 with | list hs => cases h2 with | list hs2 => exact .list (sims_trans_of ih hs hs2)
